@@ -5,8 +5,17 @@ verus! {
 pub uninterp spec fn readable(p: Seq<char>) -> bool;
 // names produced by AsyncTempFile::new (temp_dir()/breadlog-<uuid v4>.tmp)
 pub uninterp spec fn is_temp(p: Seq<char>) -> bool;
-// <config dir>/Breadlog.lock of this run
-pub uninterp spec fn lock_path() -> Seq<char>;
+// ---- paths of this run (std::path semantics are trusted: path_parent / path_join are uninterpreted) ----
+pub uninterp spec fn config_arg() -> Seq<char>;                              // the --config argument
+pub uninterp spec fn path_parent(p: Seq<char>) -> Option<Seq<char>>;         // Path::parent
+pub uninterp spec fn path_join(a: Seq<char>, b: Seq<char>) -> Seq<char>;     // Path::join
+// directory containing the configuration file ("" when the argument has no parent)
+pub open spec fn config_dir() -> Seq<char> {
+    match path_parent(config_arg()) { Some(p) => p, None => Seq::<char>::empty() }
+}
+pub open spec fn lock_name() -> Seq<char> { seq!['B', 'r', 'e', 'a', 'd', 'l', 'o', 'g', '.', 'l', 'o', 'c', 'k'] }
+// [C15.lock] the lock file lives next to the configuration file
+pub open spec fn lock_path() -> Seq<char> { path_join(config_dir(), lock_name()) }
 
 // [C07] Every in-scope source file holds its original or its complete new content, and nothing else in the
 // project differs from the start of the run.  Required before EVERY mutating operation (= at every boundary
@@ -19,6 +28,9 @@ pub open spec fn atomic_inv(w: World) -> bool {
     &&& forall|p: Seq<char>| !w.protected.contains(p) && !is_temp(p) && p != lock_path() ==>
             (#[trigger] w.fs.dom().contains(p) == w.orig.dom().contains(p)) && (w.fs.dom().contains(p) ==> w.fs[p] == w.orig[p])
 }
+
+// whether this run's write of the lock file failed (reported as warning [ref: 33]/[ref: 34])
+pub uninterp spec fn lock_write_failed() -> bool;
 
 pub open spec fn same_but_fs(a: World, b: World) -> bool {
     a.orig == b.orig && a.protected == b.protected && a.files == b.files && a.intended == b.intended && a.alloc == b.alloc
@@ -47,6 +59,14 @@ pub proof fn record_alloc(tracked w: &mut World, p: Seq<char>, first: int)
 
 #[derive(Debug)]
 pub struct IoError { pub _p: () }
+// std::io::ErrorKind as far as error handlers may inspect it (R13: std::io:: re-rooted here); the kind is nondeterministic
+#[derive(PartialEq, Eq, Structural, Clone, Copy, Debug)]
+pub enum IoErrorKind { NotFound, PermissionDenied, AlreadyExists, InvalidInput, CrossesDevices, StorageFull, Interrupted, Unsupported, Other }
+pub mod stdshim_io { pub use super::IoErrorKind as ErrorKind; }
+impl IoError {
+    #[verifier::external_body]
+    pub fn kind(&self) -> (r: IoErrorKind) { unimplemented!() }
+}
 
 pub mod async_std {
     pub mod io { pub trait WriteExt {} }
@@ -92,6 +112,59 @@ pub mod async_std {
                     same_but_fs(*old(w), *final(w)),
             { unimplemented!() }
         }
+
+        impl File {
+            // fsync after draining the write cache: same contract as flush for the visible content
+            #[verifier::external_body]
+            pub async fn sync_all(&mut self, Tracked(w): Tracked<&mut World>) -> (r: Result<(), IoError>)
+                requires
+                    !old(w).check_mode, // [C04.nowrite]
+                    atomic_inv(*old(w)), // [C07.frame]
+                    is_temp(old(self).path()), // [C07.nonatomic]
+                    old(w).fs.dom().contains(old(self).path()),
+                ensures
+                    final(self).path() == old(self).path(), final(self).accepted() == old(self).accepted(),
+                    final(w).fs.dom() == old(w).fs.dom(),
+                    forall|p: Seq<char>| p != old(self).path() ==> final(w).fs[p] == old(w).fs[p],
+                    r.is_ok() ==> final(w).fs[old(self).path()] == final(self).accepted(),
+                    same_but_fs(*old(w), *final(w)),
+            { unimplemented!() }
+        }
+        // Non-atomic writers: they open the destination itself for writing, so a crash or error leaves it truncated.
+        // They may never target an in-scope source file ([C07.nonatomic]).
+        #[verifier::external_body]
+        pub async fn copy(from: &str, to: &str, Tracked(w): Tracked<&mut World>) -> (r: Result<u64, IoError>)
+            requires
+                !old(w).check_mode, // [C04.nowrite]
+                atomic_inv(*old(w)), // [C07.frame]
+                !old(w).protected.contains(to@) && (is_temp(to@) || to@ == lock_path()), // [C07.nonatomic]
+            ensures
+                same_but_fs(*old(w), *final(w)),
+                forall|p: Seq<char>| p != to@ ==> (#[trigger] final(w).fs.dom().contains(p)) == old(w).fs.dom().contains(p),
+                forall|p: Seq<char>| p != to@ ==> (#[trigger] final(w).fs[p]) == old(w).fs[p],
+        { unimplemented!() }
+        #[verifier::external_body]
+        pub async fn write(to: &str, contents: &[u8], Tracked(w): Tracked<&mut World>) -> (r: Result<(), IoError>)
+            requires
+                !old(w).check_mode, // [C04.nowrite]
+                atomic_inv(*old(w)), // [C07.frame]
+                !old(w).protected.contains(to@) && (is_temp(to@) || to@ == lock_path()), // [C07.nonatomic]
+            ensures
+                same_but_fs(*old(w), *final(w)),
+                forall|p: Seq<char>| p != to@ ==> (#[trigger] final(w).fs.dom().contains(p)) == old(w).fs.dom().contains(p),
+                forall|p: Seq<char>| p != to@ ==> (#[trigger] final(w).fs[p]) == old(w).fs[p],
+        { unimplemented!() }
+        #[verifier::external_body]
+        pub async fn remove_file(p0: &str, Tracked(w): Tracked<&mut World>) -> (r: Result<(), IoError>)
+            requires
+                !old(w).check_mode, // [C04.nowrite]
+                atomic_inv(*old(w)), // [C07.frame]
+                is_temp(p0@), // [C07.nonatomic]
+            ensures
+                same_but_fs(*old(w), *final(w)),
+                forall|p: Seq<char>| p != p0@ ==> (#[trigger] final(w).fs.dom().contains(p)) == old(w).fs.dom().contains(p),
+                forall|p: Seq<char>| p != p0@ ==> (#[trigger] final(w).fs[p]) == old(w).fs[p],
+        { unimplemented!() }
 
         // rename(2): atomic replacement of `to`; a failed rename changes nothing (POSIX)
         #[verifier::external_body]
